@@ -1118,3 +1118,49 @@ func Verif_C17_ZRangeLimitWindow() {
 	c17Holds(s, k, p, "C17.zrange_limit.source_unchanged")
 	vr.Reach("end")
 }
+
+// ---- a score update that is refused changes nothing ----
+//
+// ZINCRBY / ZADD [XX] INCR / ZADD GT|LT on an arbitrary stored set (scores any non-NaN double,
+// infinities included) with an increment or score from a menu that includes both infinities and
+// non-numbers: when the reply is an error the stored set is exactly what it was (no NaN left behind by
+// inf + -inf, no half-applied update). What the command does when it succeeds is checked elsewhere.
+func verifFailedScoreUpdate(tag string) {
+	s := verifServer()
+	k := vr.Tok("k")
+	p := c17Preset(s, k, "z", 3)
+	m := vr.Tok("m")
+	arg := []string{"+inf", "-inf", "inf", "2", "-1.5", "abc", "nan", ""}[vr.Choose("arg", 8)]
+	var argv []string
+	switch vr.Choose("cmd", 4) {
+	case 0:
+		argv = []string{"ZINCRBY", k, arg, m}
+	case 1:
+		argv = []string{"ZADD", k, "INCR", arg, m}
+	case 2:
+		argv = []string{"ZADD", k, "XX", "INCR", arg, m}
+	default:
+		argv = []string{"ZADD", k, []string{"GT", "LT"}[vr.Choose("cmp", 2)], arg, m}
+	}
+	ob := tag + ".failed_score_update"
+	_, err, ok := c17Exec(s, ob, argv...)
+	if !ok {
+		return
+	}
+	if err != nil {
+		c17Holds(s, k, p, ob+".error_reply_means_nothing_changed")
+	} else if p.kind == kZSet {
+		// whatever was applied, no stored score is NaN afterwards
+		if e, has := s.store[0][k]; has {
+			if z, isZ := e.Value.(*ss.SortedSet); isZ {
+				for _, x := range z.GetAll() {
+					vr.Assert(float64(x.Score) == float64(x.Score), ob+".no_nan_score")
+				}
+			}
+		}
+	}
+	vr.Reach("end")
+}
+
+func Verif_C17_FailedScoreUpdateChangesNothing() { verifFailedScoreUpdate("C17") }
+func Verif_C13_FailedScoreUpdateChangesNothing() { verifFailedScoreUpdate("C13") }
